@@ -47,6 +47,8 @@ func main() {
 		os.Exit(cmdCheck(os.Args[2:]))
 	case "list":
 		cmdList()
+	case "lock":
+		os.Exit(cmdLock())
 	case "selftest":
 		os.Exit(cmdSelftest(os.Args[2:]))
 	case "replay":
@@ -114,7 +116,7 @@ func cmdVerify(args []string) {
 		units = append(units, u)
 	}
 	for _, l := range w.Lemmas {
-		if *fn != "" && !strings.Contains(l.Name, *fn) {
+		if *fn != "" && !strings.Contains("lemma "+l.Name, *fn) {
 			continue
 		}
 		u := w.VerifyLemma(l)
@@ -167,9 +169,6 @@ func has(xs []string, x string) bool {
 	return false
 }
 
-func cmdCheck(args []string) int    { fmt.Println("not implemented"); return 2 }
-func cmdSelftest(args []string) int { fmt.Println("not implemented"); return 2 }
-func cmdReplay(args []string) int   { fmt.Println("not implemented"); return 2 }
 
 func fmtAnswers(m map[string]string) string {
 	var ks []string
